@@ -104,6 +104,7 @@ type RPC struct {
 
 	// handler behaviour
 	HOps        []MDOp `json:"hops,omitempty"` // ordered header/trailer/send operations of the handler's sending side
+	HReturnMDErr bool  `json:"hreturn_md_err,omitempty"` // the handler returns, as the RPC's result, the error a header / trailer call returned to it
 	HRecvs      int    `json:"hrecvs,omitempty"`       // number of Recv calls by the handler (0 = until EOF/error; -1 = none)
 	HStallRecv  bool   `json:"hstall_recv,omitempty"`
 	HStallSend  bool   `json:"hstall_send,omitempty"`
